@@ -567,11 +567,158 @@ fn hb(args: &[&str]) -> String {
     })
 }
 
+
+// ------------------------------------------------------------------------------------------------
+// real sockets, real time: real `Server` + real `Client` over loopback TLS; a counting TCP forwarder
+// in front of the server counts the connections the client dials
+
+fn free_port() -> u16 {
+    let l = std::net::TcpListener::bind("127.0.0.1:0").unwrap();
+    l.local_addr().unwrap().port()
+}
+
+/// poolreal <I> <T> <M> <t:op>...   ops: r, d<k>, t (as in `pool`); times are real milliseconds
+fn poolreal(args: &[&str]) -> String {
+    let i: u64 = args[0].parse().unwrap();
+    let t: u64 = args[1].parse().unwrap();
+    let m: usize = args[2].parse().unwrap();
+    let ops: Vec<(u64, char, u64)> = args[3..].iter().map(|a| parse_op(a)).collect();
+    let rt = tokio::runtime::Builder::new_multi_thread()
+        .worker_threads(2)
+        .enable_all()
+        .build()
+        .unwrap();
+    rt.block_on(async move {
+        // upstream echo server
+        let echo = tokio::net::TcpListener::bind("127.0.0.1:0").await.unwrap();
+        let echo_addr = echo.local_addr().unwrap();
+        tokio::spawn(async move {
+            loop {
+                if let Ok((mut s, _)) = echo.accept().await {
+                    tokio::spawn(async move {
+                        let mut buf = [0u8; 1024];
+                        loop {
+                            match s.read(&mut buf).await {
+                                Ok(0) | Err(_) => break,
+                                Ok(n) => {
+                                    if s.write_all(&buf[..n]).await.is_err() {
+                                        break;
+                                    }
+                                }
+                            }
+                        }
+                    });
+                }
+            }
+        });
+        // the real server
+        let sport = free_port();
+        let saddr = format!("127.0.0.1:{}", sport);
+        let scfg = anytls_rs::util::tls::create_server_config().unwrap();
+        let acceptor = Arc::new(tokio_rustls::TlsAcceptor::from(scfg));
+        let server = Arc::new(anytls_rs::server::Server::new(
+            PASSWORD,
+            acceptor,
+            PaddingFactory::default(),
+            None,
+        ));
+        let s2 = server.clone();
+        let saddr2 = saddr.clone();
+        tokio::spawn(async move {
+            let _ = s2.listen(&saddr2).await;
+        });
+        // counting forwarder
+        let fwd = tokio::net::TcpListener::bind("127.0.0.1:0").await.unwrap();
+        let faddr = fwd.local_addr().unwrap();
+        let accepts = Arc::new(AtomicUsize::new(0));
+        let acc2 = accepts.clone();
+        let saddr3 = saddr.clone();
+        tokio::spawn(async move {
+            loop {
+                if let Ok((mut c, _)) = fwd.accept().await {
+                    acc2.fetch_add(1, Ordering::SeqCst);
+                    let target = saddr3.clone();
+                    tokio::spawn(async move {
+                        if let Ok(mut s) = tokio::net::TcpStream::connect(&target).await {
+                            let _ = tokio::io::copy_bidirectional(&mut c, &mut s).await;
+                        }
+                    });
+                }
+            }
+        });
+        // wait until the server listens
+        for _ in 0..100 {
+            if tokio::net::TcpStream::connect(&saddr).await.is_ok() {
+                break;
+            }
+            tokio::time::sleep(ms(10)).await;
+        }
+        let tls = anytls_rs::util::tls::create_client_config().unwrap();
+        let connector = Arc::new(tokio_rustls::TlsConnector::from(tls));
+        let name = tokio_rustls::rustls::pki_types::ServerName::IpAddress(
+            std::net::IpAddr::from([127, 0, 0, 1]).into(),
+        );
+        let start = Instant::now();
+        let client = Arc::new(Client::with_pool_config(
+            PASSWORD,
+            format!("{}", faddr),
+            name,
+            connector,
+            PaddingFactory::default(),
+            SessionPoolConfig {
+                check_interval: ms(i),
+                idle_timeout: ms(t),
+                min_idle_sessions: m,
+            },
+        ));
+        let mut run = PoolRun {
+            pool: client.verif_session_pool(),
+            client,
+            sessions: Vec::new(),
+            streams: Vec::new(),
+            waiting: VecDeque::new(),
+        };
+        let mut out = Vec::new();
+        for (at, op, n) in ops {
+            tokio::time::sleep_until(start + ms(at)).await;
+            let res = match op {
+                'r' => {
+                    let r = tokio::time::timeout(
+                        ms(5000),
+                        run.client
+                            .create_proxy_stream((echo_addr.ip().to_string(), echo_addr.port())),
+                    )
+                    .await;
+                    match r {
+                        Ok(r) => run.take(Ok(r)),
+                        Err(_) => "stuck".to_string(),
+                    }
+                }
+                'd' => {
+                    if let Some(p) = run.streams.iter().position(|(k, _)| *k == n as usize) {
+                        run.streams.remove(p);
+                    }
+                    "-".to_string()
+                }
+                _ => "-".to_string(),
+            };
+            tokio::time::sleep(ms(30)).await;
+            let snap = run.snapshot().await;
+            out.push(format!("{}/{}", res, snap));
+        }
+        // the server's own accept of the readiness probe does not pass through the forwarder
+        out.push(format!("dials={}", accepts.load(Ordering::SeqCst)));
+        run.client.stop_session_pool_cleanup().await;
+        out.join(" ")
+    })
+}
+
 pub fn dispatch(drv: &str, args: &[&str]) -> Option<String> {
     match drv {
         "pool" => Some(pool(args)),
         "bpool" => Some(bpool(args)),
         "hb" => Some(hb(args)),
+        "poolreal" => Some(poolreal(args)),
         _ => None,
     }
 }
